@@ -19,7 +19,7 @@ import (
 var suite = suites.MustFind("Ed25519")
 
 type input struct {
-	Kind  string `json:"kind"` // nary | binary | star | big
+	Kind  string `json:"kind"` // nary | binary | star | big | ltbig | lttree | sim
 	Hosts []int  `json:"hosts"`
 	N     int    `json:"N"`
 	Nodes int    `json:"nodes"`
@@ -135,6 +135,43 @@ func run(raw json.RawMessage) lib.Case {
 		o = observe(ro, func() *onet.Tree { return ro.GenerateBinaryTree() })
 	case "star":
 		o = observe(ro, func() *onet.Tree { return ro.GenerateStar() })
+	case "ltbig", "lttree":
+		// the test helpers of local.go that wrap the generators: they build their own roster
+		// (n servers on one host)
+		lt := onet.NewLocalTest(suite)
+		var lro *onet.Roster
+		var lo obs
+		func() {
+			defer func() {
+				if r := recover(); r != nil {
+					lo = obs{Crash: fmt.Sprint(r)}
+				}
+			}()
+			var tr *onet.Tree
+			if in.Kind == "ltbig" {
+				_, lro, tr = lt.GenBigTree(in.Nodes, n, in.N, false)
+			} else {
+				_, lro, tr = lt.GenTree(n, false)
+			}
+			lo = observe(lro, func() *onet.Tree { return tr })
+		}()
+		lt.CloseAll()
+		o = lo
+		class = in.Kind
+		if in.Kind == "ltbig" {
+			class += bigSuffix(in.Nodes, n)
+		}
+	case "sim":
+		// simulation.go: SimulationBFTree.CreateTree on a given roster
+		sim := &onet.SimulationBFTree{Hosts: in.Nodes, BF: in.N}
+		sc := &onet.SimulationConfig{Roster: ro}
+		o = observe(ro, func() *onet.Tree {
+			if err := sim.CreateTree(sc); err != nil {
+				return nil
+			}
+			return sc.Tree
+		})
+		class = "sim" + bigSuffix(in.Nodes, n)
 	case "big":
 		o = observe(ro, func() *onet.Tree { return ro.GenerateBigNaryTree(in.N, in.Nodes) })
 		if in.Nodes == n {
@@ -164,8 +201,12 @@ func run(raw json.RawMessage) lib.Case {
 		coq = fmt.Sprintf("CBinary %d %s %s %s %s", n, res, lib.NatList(o.IDs), lib.Bool(o.LinksOK), lib.Bool(o.RidxOK))
 	case "star":
 		coq = fmt.Sprintf("CStar %d %s %s %s %s", n, res, lib.NatList(o.IDs), lib.Bool(o.LinksOK), lib.Bool(o.RidxOK))
-	case "big":
+	case "big", "sim":
 		coq = fmt.Sprintf("CBig %s %d %d %s %s %s %s", lib.NatList(in.Hosts), in.N, in.Nodes, res, lib.NatList(o.IDs), lib.Bool(o.LinksOK), lib.Bool(o.RidxOK))
+	case "ltbig":
+		coq = fmt.Sprintf("CBig %s %d %d %s %s %s %s", lib.NatList(make([]int, n)), in.N, in.Nodes, res, lib.NatList(o.IDs), lib.Bool(o.LinksOK), lib.Bool(o.RidxOK))
+	case "lttree":
+		coq = fmt.Sprintf("CBinary %d %s %s %s %s", n, res, lib.NatList(o.IDs), lib.Bool(o.LinksOK), lib.Bool(o.RidxOK))
 	}
 	small := o
 	if len(small.Nodes) > 40 {
@@ -173,6 +214,15 @@ func run(raw json.RawMessage) lib.Case {
 		small.IDs = small.IDs[:40]
 	}
 	return lib.Case{Coq: coq, Class: class, Obs: small, Nontrivial: len(o.Nodes) > 1}
+}
+
+func bigSuffix(nodes, n int) string {
+	if nodes == n {
+		return "-useall"
+	} else if nodes > n {
+		return "-repeat"
+	}
+	return "-subset"
 }
 
 func hostPattern(rng *rand.Rand, n, pat int) []int {
@@ -251,6 +301,31 @@ func generate(rng *rand.Rand, tier string) []interface{} {
 			nodes = 1 + rng.Intn(2*n)
 		}
 		ins = append(ins, input{Kind: "big", Hosts: h, N: 1 + rng.Intn(4), Nodes: nodes})
+	}
+	// the wrappers of local.go and simulation.go around the generators
+	wr := 30
+	if tier != "quick" {
+		wr = 300
+	}
+	for i := 0; i < wr; i++ {
+		n := 1 + rng.Intn(6)
+		switch i % 3 {
+		case 0:
+			nodes := n
+			if rng.Intn(2) == 0 {
+				nodes = 1 + rng.Intn(14)
+			}
+			ins = append(ins, input{Kind: "ltbig", Hosts: make([]int, n), N: 1 + rng.Intn(3), Nodes: nodes})
+		case 1:
+			ins = append(ins, input{Kind: "lttree", Hosts: make([]int, n)})
+		default:
+			n = 1 + rng.Intn(12)
+			nodes := n
+			if rng.Intn(2) == 0 {
+				nodes = 1 + rng.Intn(2*n)
+			}
+			ins = append(ins, input{Kind: "sim", Hosts: hostPattern(rng, n, rng.Intn(4)), N: 1 + rng.Intn(4), Nodes: nodes})
+		}
 	}
 	// sampled large part
 	samples := 60
